@@ -211,6 +211,18 @@ func New(model *openfgav1.AuthorizationModel) (*TypeSystem, error) {
 
 			if metadata, ok := td.GetMetadata().GetRelations()[relation]; ok {
 				r.TypeInfo.DirectlyRelatedUserTypes = metadata.GetDirectlyRelatedUserTypes()
+
+				// a type restriction whose relation is set but empty ("group#") names no node of the
+				// model graph: the graph builder below would dereference nil.
+				for _, ref := range metadata.GetDirectlyRelatedUserTypes() {
+					if rel, ok := ref.GetRelationOrWildcard().(*openfgav1.RelationReference_Relation); ok && rel.Relation == "" {
+						return nil, &InvalidRelationError{
+							ObjectType: typeName,
+							Relation:   relation,
+							Cause:      fmt.Errorf("%w: type restriction on '%s' has an empty relation", ErrInvalidModel, ref.GetType()),
+						}
+					}
+				}
 			}
 
 			tdRelations[relation] = r
